@@ -199,6 +199,9 @@ def resolve(f, op, env, depth=0):
                 op = env[i["id"]]
             else:
                 break
+        elif i["op"] == "select" and ("sel", i["id"]) in env:
+            # `probe() ? &table_a : &table_b`: the outcome was fixed for this run (see probe_selects)
+            op = i["ops"][1] if env[("sel", i["id"])] else i["ops"][2]
         else:
             break
     if op[0] == "ce" and op[1] in ("bitcast",):
@@ -206,10 +209,33 @@ def resolve(f, op, env, depth=0):
     return op
 
 
-def run_path(prog, f, am, path, probes):
-    """abstractly execute one path: probe outcomes assumed (name -> bool), stores to handle fields."""
+def probe_selects(f, probes):
+    """select instructions whose condition is a test of a CPU probe's result: [(select id, probe name, polarity)]"""
+    out = []
+    for i in f.all_insts():
+        if i["op"] != "select":
+            continue
+        c = i["ops"][0]
+        ci = f.insts[c[1]] if c[0] == "i" else None
+        if ci and ci["op"] == "icmp" and ci["pred"] in ("ne", "eq") and const_of(f, ci["ops"][1]) == 0:
+            x = ci["ops"][0]
+            while x[0] == "i" and f.insts[x[1]]["op"] in CASTS | {"zext"}:
+                x = f.insts[x[1]]["ops"][0]
+            xi = f.insts[x[1]] if x[0] == "i" else None
+            if xi and xi["op"] == "call" and xi["callee"][0] == "f" and xi["callee"][1] in probes:
+                out.append((i["id"], xi["callee"][1], ci["pred"] == "ne", f.bb_of[i["id"]]))
+    return out
+
+
+def run_path(prog, f, am, path, probes, sel_choice=None):
+    """abstractly execute one path: probe outcomes assumed (name -> bool), stores to handle fields.
+    sel_choice: {select id: condition value} for probe-conditioned selects on this run."""
     env = {}
     outcomes = {}
+    for (sid, nm, pos, blk) in probe_selects(f, probes):
+        if sel_choice is not None and sid in sel_choice and blk in path:
+            env[("sel", sid)] = sel_choice[sid]
+            outcomes[nm] = sel_choice[sid] if pos else (not sel_choice[sid])
     stores = {}
     dispatch = None
     feasible = True
@@ -359,8 +385,14 @@ def run_config(ctx, rep, cfg, objects=True):
         ps_off = ps[1][1][0] if ps else None
         results = []
         cands = set()
+        sels = probe_selects(f, probes)
+        import itertools
+        runs = []
         for path in enum_paths(f):
-            feasible, outcomes, stores, dispatch, ret = run_path(prog, f, am, path, probes)
+            for choice in itertools.product([True, False], repeat=len(sels)):
+                runs.append((path, {sid: ch for (sid, _, _, _), ch in zip(sels, choice)}))
+        for (path, sel_choice) in runs:
+            feasible, outcomes, stores, dispatch, ret = run_path(prog, f, am, path, probes, sel_choice)
             if not feasible or vt_off not in stores:
                 continue
             if ret is not None and ret[0] == "c" and int(ret[1]) == 0:
